@@ -10,4 +10,4 @@ for p in "$@"; do
 done
 git -C /repo checkout -- . && git -C /repo clean -fdq
 # regenerate Gen for the clean tree so later builds are not confused
-(cd /verif && for t in gen_tables gen_limbs gen_asm gen_effects; do [ -x .build/$t ] && .build/$t /repo lean/I3/Gen >/dev/null 2>&1; done; true)
+(cd /verif && for t in gen_tables gen_limbs gen_asm gen_pins gen_effects; do [ -x .build/$t ] && .build/$t /repo lean/I3/Gen >/dev/null 2>&1; done; true)
